@@ -21,6 +21,7 @@
 -/
 import DymVerif.Lemmas.GenesisIro
 import DymVerif.Lemmas.GenesisChecks
+import DymVerif.Lemmas.GenesisRefOps
 namespace DymVerif.C18M
 open DymVerif DymVerif.Genesis
 
@@ -229,6 +230,24 @@ theorem incentives_export_import_export (s : IncState) (h : RsInv s.gauges) (hc 
     (hf : s.gauges.finished = []) : (importInc s.now (exportInc s)).map exportInc = some (exportInc s) := by
   rw [incentives_roundtrip_partial s h hc hf]; rfl
 
+/-- the reference-store invariant (`RsInv`: records under their ids, reference sections sorted without
+    empty lists, every reference points to a stored record starting at its time key, every record
+    referenced exactly once) holds after EVERY history of the store's write paths — creation through
+    `Set…WithRefKey` under a fresh id, upcoming → active (refused before the start time), active →
+    finished, in-place rewrites — at any clock values; the same store underlies gauges and streams -/
+theorem refstore_invariant_reachable (ops : List (Nat × RsOp)) : RsInv (rsRun ops) := rsInv_run ops
+
+/-- hence, for every reachable gauge store: when nothing is finished and the classes agree with the
+    clock, export followed by import gives back the state -/
+theorem incentives_roundtrip_reachable_partial (ops : List (Nat × RsOp)) (now params last : Nat) (lockable : List Nat)
+    (hc : ClsOk (rsRun ops) now) (hf : (rsRun ops).finished = []) :
+    importInc now (exportInc ⟨now, params, lockable, last, rsRun ops⟩) = some ⟨now, params, lockable, last, rsRun ops⟩ :=
+  incentives_roundtrip_partial ⟨now, params, lockable, last, rsRun ops⟩ (rsInv_run ops) hc hf
+
+/-- a history: gauge 1 created and activated, gauges 3 then 2 created for later -/
+def incHistory : List (Nat × RsOp) :=
+  [(1, .create ⟨1, 5, true, 1, 0, 0⟩), (6, .activate 1), (7, .create ⟨3, 20, false, 3, 0, 0⟩), (8, .create ⟨2, 20, false, 3, 0, 0⟩)]
+
 /-- gauges 1 (started at 5, active), 2 and 3 (start at 20, upcoming; 3 was filed before 2) at time 10 -/
 def incOk : IncState :=
   { now := 10, params := 0, lockable := [1], lastGaugeId := 3,
@@ -240,6 +259,8 @@ theorem incOk_inv : RsInv incOk.gauges :=
     (forall_cls (by unfold Sorted; decide) (by unfold Sorted; decide) (by unfold Sorted; decide))
     (forall_cls (by decide) (by decide) (by decide)) (forall_cls (by decide) (by decide) (by decide))
     (by decide) (by decide)
+
+example : rsRun incHistory = incOk.gauges := by decide
 
 theorem incOk_cls : ClsOk incOk.gauges incOk.now :=
   ClsOk.of_checks incOk_inv.si (forall_cls (by decide) (by decide) (by decide))
@@ -304,6 +325,12 @@ theorem streamer_export_import_export (s : StrState) (epochs : List (Bytes × Na
     (hcov : ∀ ep ∈ epochs, ∃ e ∈ s.pointers, e.1 = ep.1) :
     (importStr s.now epochs (exportStr s)).map exportStr = some (exportStr s) := by
   rw [streamer_roundtrip_partial s epochs h hc hf ha hps hpk hcov]; rfl
+
+theorem streamer_roundtrip_reachable_partial (ops : List (Nat × RsOp)) (now params last : Nat) (epochs : List (Bytes × Nat))
+    (ptrs : KV Bytes Pointer) (hc : ClsOk (rsRun ops) now) (hf : (rsRun ops).finished = []) (ha : AscLists (rsRun ops))
+    (hps : Sorted lexLt ptrs) (hpk : Keyed (fun p : Pointer => p.epochId) ptrs) (hcov : ∀ ep ∈ epochs, ∃ e ∈ ptrs, e.1 = ep.1) :
+    importStr now epochs (exportStr ⟨now, params, last, rsRun ops, ptrs⟩) = some ⟨now, params, last, rsRun ops, ptrs⟩ :=
+  streamer_roundtrip_partial ⟨now, params, last, rsRun ops, ptrs⟩ epochs (rsInv_run ops) hc hf ha hps hpk hcov
 
 /-- the epoch pointers alone survive whenever every epoch has its pointer (mid-epoch positions included) -/
 theorem streamer_pointers_survive (ptrs : KV Bytes Pointer) (epochs : List (Bytes × Nat)) (hps : Sorted lexLt ptrs)
